@@ -51,7 +51,7 @@ CHECKS["C06"] = ("E1-enum", "exploration",
   "bounded exhaustive enumeration of graphs x mutations on the real hashing code", "3/C06")
 CHECKS["C15"] = ("E1-enum", "exploration",
   "Bounded-exhaustive differential check of the two filter evaluators: every expression string with <=3 (thorough 4) leaves over 3 keys with and/or/juxtaposition/parentheses, quoted keys and a key with a space, x every assignment of key subsets to the 3 blocks of a segment; bitmap evaluation vs per-block keys evaluation, BlockIndex.Skip vs SkipFromKeys, index.File save/load, repeated evaluation and non-mutation of the shared index.",
-  "Whole-system half (index absent / being built / present) is exercised by the runs of the index program in C01/C07 once those exist.",
+  "Whole-system half: the index program served by the real tier1+tier2 with the index files absent (built in the request), alone, with everything, and missing while everything else is present; compared with each other and with the per-block reference.",
   "bounded exhaustive enumeration of expressions x key assignments, differential between the two real evaluators", "3/C15")
 CHECKS["C04"] = ("E3-sysrun", "exploration",
   "Bounded-exhaustive over request configurations on the whole system (real Tier1Service.blocks, real Tier2Service.processRange in-process, real hashes, scripted modules): mode x segment size x module initial blocks x start x stop x final block on three programs; range, order, duplicates, gaps at the hand-off, cursors, and a resumed request from the cursor of every delivered final block compared with the original suffix.",
